@@ -44,6 +44,7 @@ LdConsistent ==
     /\ LdRun(LdInit, hist) = s
     /\ LET total == Len(s.frames) + Len(s.cur) IN total <= Len(hist)
     /\ \A i \in 1..Len(s.frames) : Len(s.frames[i]) <= MaxFrame
+    /\ LdAllocBounded(s)
 \* every table is total over its class space and only names known outcomes
 TablesTotal ==
   phase = "cls" =>
